@@ -340,3 +340,128 @@ Proof.
   - exists 0, (-1). split; [exact F|]. repeat split; try lia.
     rewrite W. replace (e1 - s0)%nat with 0%nat by lia. reflexivity.
 Qed.
+
+(* ---- D. GetManyFromOrderPosition on a sorted slice ------------------------------------------ *)
+Lemma page_of_nil {X} from lim : @page_of X from lim [] = [].
+Proof. unfold page_of. destruct lim; rewrite skipn_nil; auto. Qed.
+
+Lemma skipn_skipn {X} (x y : nat) (l : list X) : skipn x (skipn y l) = skipn (x + y) l.
+Proof.
+  revert l. induction y as [|y IH]; intros l.
+  - rewrite Nat.add_0_r. reflexivity.
+  - rewrite Nat.add_succ_r. destruct l as [|a t]; [rewrite !skipn_nil; reflexivity|]. cbn [skipn]. apply IH.
+Qed.
+
+Lemma Sorted_map {X Y} (g : X -> Y) (R : Y -> Y -> Prop) l :
+  Sorted (fun a b => R (g a) (g b)) l -> Sorted R (map g l).
+Proof.
+  induction 1 as [|x t Hs IH Hh]; simpl; constructor; auto.
+  destruct Hh; simpl; constructor; auto.
+Qed.
+Lemma Sorted_map_inv {X Y} (g : X -> Y) (R : Y -> Y -> Prop) l :
+  Sorted R (map g l) -> Sorted (fun a b => R (g a) (g b)) l.
+Proof.
+  induction l as [|x t IH]; simpl; intros H; constructor; inversion H; subst; auto.
+  destruct t; simpl in *; constructor. inversion H3; auto.
+Qed.
+
+(* the part of GetManyFromOrderPosition after the bounds are known *)
+Definition gm_tail (slice : list skey) (windowed : bool) (startIdx endIdx from lim : Z) : option (list skey) :=
+  let n := Z.of_nat (length slice) in
+  if windowed && ((endIdx <? startIdx) || (startIdx <? 0)) then Some [] else
+  let actualStart := startIdx + from in
+  if actualStart >? endIdx then Some [] else
+  let actualEnd := if lim =? 0 then endIdx
+                   else if actualStart + lim - 1 >? endIdx then endIdx else actualStart + lim - 1 in
+  let size := actualEnd - actualStart + 1 in
+  if size <=? 0 then Some [] else
+  if (actualStart <? 0) || (actualStart + size >? n) then None
+  else Some (firstn (Z.to_nat size) (skipn (Z.to_nat actualStart) slice)).
+
+Lemma get_many_unfold asc slice a from lim ft tu :
+  get_many asc slice a from lim ft tu =
+  match (if is_some ft || is_some tu then find_bounds asc a ft tu
+         else Some (0, Z.of_nat (length slice) - 1)) with
+  | None => None
+  | Some (s, e) => gm_tail slice (is_some ft || is_some tu) s e from lim
+  end.
+Proof. reflexivity. Qed.
+
+Lemma paging_core (slice : list skey) windowed (s0 e1 : nat) from lim :
+  (e1 <= length slice)%nat -> 0 <= from -> 0 <= lim ->
+  let b := if (s0 <? e1)%nat then (Z.of_nat s0, Z.of_nat e1 - 1) else (0, -1) in
+  gm_tail slice windowed (fst b) (snd b) from lim =
+    Some (page_of (Z.to_nat from) (Z.to_nat lim) (firstn (e1 - s0) (skipn s0 slice))).
+Proof.
+  intros He Hf Hl b. unfold gm_tail. subst b.
+  destruct (Nat.ltb_spec s0 e1) as [Lt|Ge]; cbn [fst snd].
+  2:{ replace (e1 - s0)%nat with 0%nat by lia. cbn [firstn]. rewrite page_of_nil.
+      destruct windowed; cbn [andb]; [reflexivity|].
+      replace (0 + from >? -1) with true by lia. reflexivity. }
+  replace (windowed && ((Z.of_nat e1 - 1 <? Z.of_nat s0) || (Z.of_nat s0 <? 0))) with false
+    by (destruct windowed; cbn [andb]; lia).
+  set (k := (e1 - s0)%nat). set (L := skipn s0 slice).
+  assert (LL : length L = (length slice - s0)%nat) by (unfold L; apply skipn_length).
+  destruct (Z.gtb_spec (Z.of_nat s0 + from) (Z.of_nat e1 - 1)) as [Big|Small].
+  - (* offset beyond the range *)
+    unfold page_of. rewrite skipn_firstn_comm.
+    replace (k - Z.to_nat from)%nat with 0%nat by lia. cbn [firstn].
+    destruct (Z.to_nat lim); reflexivity.
+  - destruct (Z.eqb_spec lim 0) as [L0|LN].
+    + (* no limit *)
+      replace (Z.of_nat e1 - 1 - (Z.of_nat s0 + from) + 1 <=? 0) with false by lia.
+      replace ((Z.of_nat s0 + from <? 0) ||
+               (Z.of_nat s0 + from + (Z.of_nat e1 - 1 - (Z.of_nat s0 + from) + 1) >? Z.of_nat (length slice)))
+        with false by lia.
+      subst lim. cbn [Z.to_nat page_of]. rewrite skipn_firstn_comm. unfold L. rewrite skipn_skipn.
+      f_equal. f_equal; [lia | f_equal; lia].
+    + destruct (Z.to_nat lim) as [|lim'] eqn:EL; [lia|]. unfold page_of.
+      rewrite skipn_firstn_comm, firstn_firstn. unfold L. rewrite skipn_skipn.
+      destruct (Z.gtb_spec (Z.of_nat s0 + from + lim - 1) (Z.of_nat e1 - 1)) as [Cap|NoCap].
+      * replace (Z.of_nat e1 - 1 - (Z.of_nat s0 + from) + 1 <=? 0) with false by lia.
+        replace ((Z.of_nat s0 + from <? 0) ||
+                 (Z.of_nat s0 + from + (Z.of_nat e1 - 1 - (Z.of_nat s0 + from) + 1) >? Z.of_nat (length slice)))
+          with false by lia.
+        f_equal. f_equal; [lia | f_equal; lia].
+      * replace (Z.of_nat s0 + from + lim - 1 - (Z.of_nat s0 + from) + 1 <=? 0) with false by lia.
+        replace ((Z.of_nat s0 + from <? 0) ||
+                 (Z.of_nat s0 + from + (Z.of_nat s0 + from + lim - 1 - (Z.of_nat s0 + from) + 1) >? Z.of_nat (length slice)))
+          with false by lia.
+        f_equal. f_equal; [lia | f_equal; lia].
+Qed.
+
+(* If the ordered slice is sorted by the active attribute, GetManyFromOrderPosition returns the
+   paged cut of the entries inside the window: no panic, exact offsets, half-open window. *)
+Theorem page_correct_on_sorted asc (at_ : skey -> skey) slice from lim ft tu :
+  Sorted (fun k1 k2 => ord_leb asc (at_ k1) (at_ k2) = true) slice ->
+  0 <= from -> 0 <= lim ->
+  get_many asc slice (map at_ slice) from lim ft tu =
+    Some (page_of (Z.to_nat from) (Z.to_nat lim) (filter (fun k => win ft tu (at_ k)) slice)).
+Proof.
+  intros Srt Hf Hl. rewrite get_many_unfold.
+  set (lo := fun k => lo_pred asc ft tu (at_ k)). set (hi := fun k => hi_pred asc ft tu (at_ k)).
+  set (s0 := length (filter lo slice)). set (e1 := length (filter hi slice)).
+  assert (SrtA : Sorted (ordR asc) (map at_ slice)) by (apply Sorted_map; exact Srt).
+  assert (W : filter (fun k => win ft tu (at_ k)) slice = firstn (e1 - s0) (skipn s0 slice)).
+  { rewrite (filter_ext _ (fun k => negb (lo k) && hi k)) by (intros k; apply win_preds).
+    apply Sorted_StronglySorted in Srt.
+    2:{ intros x y z; apply ord_leb_trans. }
+    apply seg_lemma.
+    - apply (sorted_split _ lo) in Srt; auto. intros y z. apply lo_pred_closed.
+    - apply (sorted_split _ hi) in Srt; auto. intros y z. apply hi_pred_closed.
+    - destruct (lo_hi_nested asc ft tu) as [I|I]; [left|right]; intros x; apply I. }
+  assert (B : (if is_some ft || is_some tu then find_bounds asc (map at_ slice) ft tu
+               else Some (0, Z.of_nat (length slice) - 1))
+              = Some (if (s0 <? e1)%nat then (Z.of_nat s0, Z.of_nat e1 - 1) else (0, -1))).
+  { destruct (is_some ft || is_some tu) eqn:Wd.
+    - rewrite (find_bounds_spec asc _ ft tu SrtA). cbv zeta. rewrite !filter_map_len. reflexivity.
+    - destruct ft, tu; try discriminate. f_equal.
+      assert (s0 = 0%nat) as ->.
+      { unfold s0, lo, lo_pred. destruct asc; rewrite (filter_none (fun _ => false)); auto. }
+      assert (e1 = length slice) as ->.
+      { unfold e1, hi, hi_pred. destruct asc; rewrite (filter_all (fun _ => true)); auto. }
+      destruct (Nat.ltb_spec 0 (length slice)); f_equal; lia. }
+  rewrite B.
+  pose proof (paging_core slice (is_some ft || is_some tu) s0 e1 from lim) as P. cbv zeta in P.
+  destruct (s0 <? e1)%nat; cbn [fst snd] in P; rewrite W; apply P; auto; apply filter_len_le.
+Qed.
